@@ -148,7 +148,8 @@ def prepare(spec):
     if "scale" in spec:
         srcs = programs.scale_sources(r, small=spec["scale"] < 16, large=16 <= spec["scale"] < 32)   # smallest, largest, then random sizes
         files, main, kind = srcs[spec["scale"] % len(srcs)]
-        return [build_item(files, main, spec["budget"], kind)]
+        extra = programs.no_variable_sources(r) if spec["scale"] % 8 == 0 else []
+        return [build_item(files, main, spec["budget"], kind)] + [build_item(f_, m_, 2000, k_) for f_, m_, k_ in extra]
     for k in range(spec["n"]):
         variant = VARIANTS[(spec["chunk"] * spec["n"] + k) % len(VARIANTS)]
         files, main, tags = make_source(r, variant)
